@@ -405,6 +405,20 @@ pub fn s_ubig() -> String {
 }
 
 // ------------------------------------------------------------------------------------------------ table
+/// Expected top-level field names (declaration order) of the struct types; `None` = not a named struct.
+pub fn expected_fields(name: &str) -> Option<&'static [&'static str]> {
+    Some(match name {
+        "BInner" => &["a", "b", "flag"],
+        "BBig" => &["amount", "key", "opt", "items", "name", "arr", "m", "st", "e", "big", "fl", "f4", "nested", "tup", "boxed", "tail"],
+        "ZcInner" => &["x", "y", "k"],
+        "ZcBig" => &["a", "b", "c", "inner", "arr", "last"],
+        "UNested" => &["tag", "bytes", "tail"],
+        "UInner" => &["tag", "bytes", "words"],
+        "UBig" => &["s1", "s2", "s3", "l8", "l16", "l32", "l64", "set", "map", "name", "ul", "um", "uu", "e", "tail"],
+        _ => return None,
+    })
+}
+
 pub struct TyEntry {
     pub name: &'static str,
     pub shape: String,
